@@ -74,7 +74,8 @@ def field_updates(fn, field):
     for i, k, s in fn.body.stmts():
         if s["k"] == "assign" and s["p"].get("pr"):
             fl = [e.get("f") for e in s["p"]["pr"] if isinstance(e, dict) and "f" in e]
-            if fl == [field] and s["p"]["l"] == 1:
+            # through `self` directly or through the `&mut self` handed to a spliced helper
+            if fl == [field] and (s["p"]["l"] == 1 or is_param(sym_through(sy.local(s["p"]["l"])), 0)):
                 out.append((i, strip_sym(sy.rvalue(s["rv"], 0, frozenset()))))
     return out
 
